@@ -3,6 +3,7 @@ import B2Z.Props.C08
 import B2Z.Props.C11
 import B2Z.Proofs.IcfDamage
 import B2Z.Proofs.ChunkFile
+import B2Z.Gen.ChunkFile
 /-! # C18 — a damaged intermediate store is detected, not silently mis-read
 
 Model: `B2Z.Dmg` (`Model/IcfDamage.lean`).  PARTIAL: that decoding a truncated file fails is the
@@ -160,6 +161,18 @@ theorem storedFrame_wellFramed (payload : List Nat) (h : 16 + payload.length < 2
     rw [List.append_assoc, List.drop_append_of_le_length (by simp)]
     simp [List.take_append_of_le_length, leBytes_length]
   rw [this, leVal_leBytes 4 _ h]
+
+/-- **bridging lemma**: the guard of the real `read_chunk`, regenerated from the source on every run
+    (`Gen.chunkRefuses`), is the guard of the model; it reads the size field little-endian, sits in front
+    of the only `decode` call, and that call receives the buffer that was checked -/
+theorem C18_gen_read_chunk_guard (c : Codec α) (mem buff : List Nat) :
+    readChunk c mem buff =
+      (if Gen.chunkRefuses buff.length (fun a b => leVal ((buff.drop a).take (b - a))) then none else c buff mem) ∧
+    Gen.chunkGuardByteorder = "little" ∧ Gen.chunkDecodeCalls = ["self.compressor.decode(buff)"] ∧
+    Gen.chunkGuardOnlyFor = "isinstance(self.compressor, numcodecs.Blosc)" := by
+  refine ⟨?_, by decide, by decide, by decide⟩
+  unfold readChunk Gen.chunkRefuses declared
+  by_cases h1 : buff.length < 16 <;> by_cases h2 : leVal ((buff.drop 12).take 4) = buff.length <;> simp [h1, h2]
 
 /-- **F12**: without the size check a truncated stored-mode chunk is completed from whatever lies
     behind the buffer — here the tail of a chunk of the same size read just before — and silently
